@@ -11,6 +11,41 @@ from __future__ import annotations
 from pathlib import Path
 
 MEMBER_KIND = {"m1": "attr", "m2": "method"}
+EXT = 9  # marker of an unresolvable base in bases[c] (spec: Ext)
+# The external class named by the Ext position of class c (spec: ExtOf(c) - one distinct, otherwise unrelated class per
+# class statement, so that CPython's MRO restricted to the analysed classes is defined by the analysed classes alone):
+# a builtin, a subscripted generic, a module attribute of / a name imported from a package that is not loaded.
+EXTERNALS = [
+    ("Exception", None),
+    ("Generic[T]", "from typing import Generic, TypeVar\nT = TypeVar('T')"),
+    ("textwrap.TextWrapper", "import textwrap"),
+    ("PrettyPrinter", "from pprint import PrettyPrinter"),
+    ("string.Formatter", "import string"),
+    ("shlex", "from shlex import shlex"),
+]
+
+
+def local_bases(case: dict, c: int) -> list:
+    """The bases of c that are classes of the analysed modules (spec: LocalBases)."""
+    return [b for b in case["bases"][c - 1] if b != EXT]
+
+
+def forward_refs(case: dict) -> bool:
+    return any(b > c for c in range(1, case["n"] + 1) for b in local_bases(case, c))
+
+
+def ext_position(case: dict, c: int) -> str:
+    bs = case["bases"][c - 1]
+    if EXT not in bs:
+        return "none"
+    i = bs.index(EXT)
+    return "only" if len(bs) == 1 else ("first" if i == 0 else ("last" if i == len(bs) - 1 else "middle"))
+
+
+def prelude(case: dict) -> str:
+    """Imports needed by the external bases (module ma; the ext domain only uses the one-module layout)."""
+    lines = [EXTERNALS[c - 1][1] for c in range(1, case["n"] + 1) if EXT in case["bases"][c - 1] and EXTERNALS[c - 1][1]]
+    return "\n".join(lines) + "\n\n" if lines else ""
 
 
 def normalise(case: dict) -> dict:
@@ -63,7 +98,7 @@ def base_spelling(case: dict, c: int, b: int, prefix: str = "", canonical: bool 
 
 
 def class_chunk(case: dict, c: int, prefix: str = "", canonical: bool = False, guarded: bool = False) -> str:
-    bases = ", ".join(base_spelling(case, c, b, prefix, canonical) for b in case["bases"][c - 1])
+    bases = ", ".join(EXTERNALS[c - 1][0] if b == EXT else base_spelling(case, c, b, prefix, canonical) for b in case["bases"][c - 1])
     head = f"class C{c}({bases}):" if bases else f"class C{c}:"
     body = []
     if case["layout"] == "sub" and not canonical:
@@ -97,12 +132,12 @@ def import_lines(case: dict, module: str, prefix: str = "", guarded: bool = Fals
         return out
 
     if module in ("mc", "md"):  # the re-exporting modules of layouts "chain" / "chain2": the classes used across modules
-        needed = sorted({b for c in range(1, n + 1) for b in case["bases"][c - 1] if mods[b - 1] != mods[c - 1]})
+        needed = sorted({b for c in range(1, n + 1) for b in local_bases(case, c) if mods[b - 1] != mods[c - 1]})
         out = []
         for b in needed:
             out += from_import(f"{prefix}mc" if module == "md" else f"{prefix}{mods[b - 1]}", [f"C{b}"])
         return out
-    needed = sorted({b for c in range(1, n + 1) if mods[c - 1] == module for b in case["bases"][c - 1] if mods[b - 1] != module})
+    needed = sorted({b for c in range(1, n + 1) if mods[c - 1] == module for b in local_bases(case, c) if mods[b - 1] != module})
     if not needed:
         return []
     other = prefix + ("mb" if module == "ma" else "ma")
@@ -129,7 +164,7 @@ def render(case: dict, prefix: str = "", guarded: bool = False) -> dict:
     for module in present:
         lines = import_lines(case, module, prefix, guarded)
         chunks = [class_chunk(case, c, prefix, guarded=guarded) for c in range(1, case["n"] + 1) if case["mods"][c - 1] == module]
-        out[prefix + module] = "\n".join(lines) + ("\n\n" if lines else "") + "\n".join(chunks)
+        out[prefix + module] = (prelude(case) if module == "ma" else "") + "\n".join(lines) + ("\n\n" if lines else "") + "\n".join(chunks)
     # dependency order for loaders that import for real: mb, mc, md, ma
     order = [prefix + m for m in ("mb", "mc", "md", "ma") if prefix + m in out]
     return {k: out[k] for k in order}
@@ -141,7 +176,7 @@ def render(case: dict, prefix: str = "", guarded: bool = False) -> dict:
 # that cannot reach a cycle.
 def cpython_view(case: dict) -> dict:
     n = case["n"]
-    bases = case["bases"]
+    bases = [local_bases(case, c) for c in range(1, n + 1)]
     cyc = case["cyc"]
     order, state = [], {}
 
@@ -159,6 +194,8 @@ def cpython_view(case: dict) -> dict:
             visit(c)
     ns: dict = {"__name__": "c07cpy"}
     out = {"mro": {}, "attr": {}}
+    if prelude(case):
+        exec(compile(prelude(case), "<c07>", "exec", dont_inherit=True), ns)  # noqa: S102
     for c in order:
         src = class_chunk(case, c, canonical=case["layout"] != "sub")
         try:
@@ -170,7 +207,7 @@ def cpython_view(case: dict) -> dict:
             out["mro"][c] = "NameError"
             continue
         k = ns[f"C{c}"]
-        out["mro"][c] = [int(x.__name__[1:]) for x in k.__mro__ if x is not object]
+        out["mro"][c] = [int(x.__name__[1:]) for x in k.__mro__ if x.__module__ == "c07cpy"]  # restricted to the analysed classes
     d = case["delop"]
     if d["cls"] and isinstance(out["mro"].get(d["cls"]), list):  # CPython's `del C.m`: own namespace only
         try:
@@ -212,9 +249,9 @@ def check_reference(case: dict) -> str | None:
         else:
             if ref["ok"]:
                 return f"C{c}: CPython raised {got}, reference accepts with {ref['order']}"
-            if got == "NameError" and all(case["ref"][b - 1]["ok"] for b in case["bases"][c - 1]):
+            if got == "NameError" and all(case["ref"][b - 1]["ok"] for b in local_bases(case, c)):
                 return f"C{c}: NameError in CPython although every base was accepted"
-            if str(got).startswith("TypeError") and not all(case["ref"][b - 1]["ok"] for b in case["bases"][c - 1]):
+            if str(got).startswith("TypeError") and not all(case["ref"][b - 1]["ok"] for b in local_bases(case, c)):
                 return f"C{c}: TypeError in CPython although a base had been refused (expected NameError)"
     return None
 
@@ -345,8 +382,8 @@ def class_kind(case: dict, c: int) -> str:
     if case["cyc"][c - 1]:
         return "cyclic"
     if not case["ref"][c - 1]["ok"]:
-        return "refused" if all(case["ref"][b - 1]["ok"] for b in case["bases"][c - 1]) else "base-refused"
-    nb = len(case["bases"][c - 1])
+        return "refused" if all(case["ref"][b - 1]["ok"] for b in local_bases(case, c)) else "base-refused"
+    nb = len(local_bases(case, c))
     return "root" if nb == 0 else ("single" if nb == 1 else "multiple")
 
 
@@ -356,13 +393,13 @@ def compare(case: dict, real: dict, agent: str, prefix: str = "") -> tuple:
     viol, drift = [], 0
     n = case["n"]
     mem = sorted(case["attr"][0])
-    forward = any(b > c for c in range(1, n + 1) for b in case["bases"][c - 1])
+    forward = forward_refs(case)
 
     def paths(order):
         return [class_path(case, x, prefix) for x in order]
 
     def sig(clause, c, **kw):
-        return dict({"clause": clause, "agent": agent, "domain": case["domain"], "layout": case["layout"], "kind": class_kind(case, c), "forward": forward}, **kw)
+        return dict({"clause": clause, "agent": agent, "domain": case["domain"], "layout": case["layout"], "kind": class_kind(case, c), "forward": forward, "ext": ext_position(case, c)}, **kw)
 
     def check_class(c, v, who, self_path):
         nonlocal drift
@@ -387,11 +424,12 @@ def compare(case: dict, real: dict, agent: str, prefix: str = "") -> tuple:
                 else:
                     drift += 1
             impl = case["mro"][c - 1]
-            if impl["why"] != v.get("why"):
+            if impl["why"] not in ("pending", v.get("why")):   # pending: this class was not run through the machine (roots = last)
                 drift += 1
             return
         impl = case["mro"][c - 1]
-        if not impl["ok"] or paths(impl["order"]) != v["mro"]:
+        pending = impl["why"] == "pending"
+        if not pending and (not impl["ok"] or paths(impl["order"]) != v["mro"]):
             drift += 1
         # ---- inherited members = what getattr finds through the order
         attr = case["attr"][c - 1]
@@ -420,7 +458,7 @@ def compare(case: dict, real: dict, agent: str, prefix: str = "") -> tuple:
                 viol.append((sig("inherited-target", c, who=who), f"{self_path}.inherited_members[{m!r}] targets {got.get('final', got)}, CPython's look-up finds {want_final} (nearest definition along {paths(ref['order'])})"))
             if got.get("path") != f"{self_path}.{m}" or got.get("inherited") is not True or got.get("alias") is not True or got.get("parent_is_self") is not True:
                 viol.append((sig("inherited-alias-shape", c, who=who), f"{self_path}.inherited_members[{m!r}] = {got}: expected an inherited alias with path {self_path}.{m}"))
-            if case["inh"][c - 1][m]["owner"] != owner:
+            if not pending and case["inh"][c - 1][m]["owner"] != owner:
                 drift += 1
         # ---- all_members / __getitem__
         want_all = sorted(has | set(want_inh))
@@ -475,7 +513,7 @@ def check_case(griffe, case: dict, agent: str = "visit", directory: str | None =
         delout = apply_del(case, coll, prefix)
         real = real_view(case, coll, prefix)
     except Exception as exc:  # noqa: BLE001
-        forward = any(b > c for c in range(1, case["n"] + 1) for b in case["bases"][c - 1])
+        forward = forward_refs(case)
         return {"viol": [({"clause": "load-total", "agent": agent, "domain": case["domain"], "layout": case["layout"], "kind": "-", "forward": forward, "who": "class"}, f"loading raised {exc!r}")], "drift": 0, "sources": sources}
     viol, drift = compare(case, real, agent, prefix)
     d = case["delop"]
@@ -483,7 +521,7 @@ def check_case(griffe, case: dict, agent: str = "visit", directory: str | None =
         if delout in ("deleted", "noop", "KeyError"):
             drift += 1  # differs from the model's transcription of __delitem__; the verdict is the state compared above
         else:
-            forward = any(b > c for c in range(1, case["n"] + 1) for b in case["bases"][c - 1])
+            forward = forward_refs(case)
             viol.append(({"clause": "del-crashes", "agent": agent, "domain": case["domain"], "layout": case["layout"], "kind": class_kind(case, d["cls"]), "forward": forward, "who": "class"},
                          f"del {class_path(case, d['cls'], prefix)}[{d['name']!r}] raised {delout}"))
     return {"viol": viol, "drift": drift, "sources": sources, "real": real}
